@@ -99,6 +99,7 @@ def explore_instance(run, seconds=600, trace_functions=True, max_fail=40):
     samples = []
     ok = 0
     nfail = 0
+    refused = 0
     per_hint = {}
 
     def keep(r):
@@ -122,6 +123,9 @@ def explore_instance(run, seconds=600, trace_functions=True, max_fail=40):
                         fails.append(dict(x))
             else:
                 ok += 1
+        elif isinstance(r, dict) and r.get("refused"):
+            ok += 1
+            refused += 1
         elif isinstance(r, dict) and "sample" in r:
             ok += 1
             if len(samples) < 3:
@@ -131,6 +135,7 @@ def explore_instance(run, seconds=600, trace_functions=True, max_fail=40):
     st = dict(E.stats)
     st.update(
         ok=ok,
+        refused=refused,
         failing_paths=nfail,
         exhaustive=exhaustive,
         wall_s=round(time.time() - t0, 2),
